@@ -14,6 +14,19 @@ failure atomicity (both backends): on a fresh reader, after the faulted call has
   ended (found from the recorded read plans of the base calls shifted by one item / 4-unit / block along each axis and of
   every stored header array), then the failed call again, then calls with unrelated byte ranges -- must each return the
   true data (a failed read leaves nothing behind in the reader, the loader caches or the file handle's position).
+remote backend with preload (SgzReader(<blob client>, preload=True)), every file plus one with a data section of ~10 MiB (a
+  preload split into ranges by size or per worker then issues several requests): the constructor's requests complete
+  lowest-range-first / highest-range-first / in random orders; a reader that is returned must serve EVERY read call with
+  what the local reader returns (whole volume also against the specification decoder SpecFile); exc / short / empty on
+  the k-th request to arrive during construction, for every k: the constructor raises, or no later call returns
+  different data.
+time warp (both backends; crossline, z-slice default and 64x64x4 layout, sub-volume by chunk range and by unshuffled
+  blocks, preloading constructor): while these cases run, every waiting primitive that takes a timeout
+  (concurrent.futures.wait / as_completed / Future.result, queue get / put, Event / Condition / Semaphore / Barrier
+  waits, Thread.join; classes patched in place, plus every binding inside seismic_zfp modules) gives up after 0.2 s at
+  most, and ONE range read of the call is a straggler: held 0.6 s, then it fails (exc / short / empty) -> the call must
+  raise, or it succeeds -> the call must return the true data. Code that waits without timeouts is not affected (the
+  number of timeouts shortened is reported in the notes; 0 on the unchanged library).
 correspondence: the model's verdict (Model/Faults.v predict_raises_file / predict_raises_blob evaluated inside Coq on
   the recorded read plan, file length and fault assignment) must equal "the implementation raised".
 """
@@ -29,7 +42,9 @@ R = Result('one case = (file layout, backend, read method + arguments, fault ass
            'case with at least one injected fault on a range read the call really issues, or a non-identity completion '
            'order; every position of every read plan x {exception, short, empty}, random pairs, constructor faults, '
            'random permutations of the blob completions; after a faulted call, fault-free follow-up calls on the same '
-           'reader (byte range contiguous with the failed read, the same call, unrelated ranges)')
+           'reader (byte range contiguous with the failed read, the same call, unrelated ranges); preloading blob readers '
+           'under fixed and random completion orders and a fault on every constructor request; straggler requests '
+           '(slow, then failing or succeeding) with all library timeouts shortened')
 rng = random.Random(a.seed * 104729 + 17)
 QUICK = a.tier != 'thorough'
 d = scratch_dir()
@@ -771,14 +786,14 @@ class TimeWarp:
             replaced[id(orig)] = w
             self.undo.append((owner, attr, orig))
             setattr(owner, attr, w)
+        orig_sq = queue.SimpleQueue
         try:
-            class WarpedSimpleQueue(queue.SimpleQueue):
+            class WarpedSimpleQueue(orig_sq):              # a C type: its method cannot be replaced, the name can
                 def get(self_, block=True, timeout=None):
                     if isinstance(timeout, (int, float)) and timeout > WARP_S:
                         TimeWarp.hits.append('SimpleQueue.get')
                         timeout = WARP_S
-                    return queue.SimpleQueue.get(self_, block, timeout)
-            orig_sq = queue.SimpleQueue
+                    return orig_sq.get(self_, block, timeout)
             replaced[id(orig_sq)] = WarpedSimpleQueue
             self.undo.append((queue, 'SimpleQueue', orig_sq))
         except TypeError:
